@@ -303,24 +303,40 @@ def run(rep):
                         rep.violation("R05.S3", sh.file, sh.name, cons, "extent of the buffer unknown", line=sh.line)
                         continue
                     ok, need = False, None
-                    for qy in polys:
+                    cands = [(qy, pf, []) for qy in polys]
+                    alt = getattr(sm, "alt", None)
+                    if alt is not None and all(cmap.get(s_) is not None for s_, c in alt.pre):
+                        extra = [_canon(cmap[s_] - c, eqs) for s_, c in alt.pre if not nonneg(cmap[s_] - c, {})]
+                        for polys2, line2, txt2, pf2 in alt.req_ext.get(pn, []):
+                            if line2 == line and txt2 == txt:
+                                cands += [(qy, pf2, extra) for qy in polys2]
+                    alts = []
+                    for qy, pfx, extra in cands:
                         qi = inst(qy)
                         if qi is None:
                             continue
                         dlt = prov - qi
-                        if nonneg(dlt, pf):
-                            ok = True
-                            break
+                        if nonneg(dlt, pfx):
+                            if not extra:
+                                ok = True
+                                break
+                            alts.append((Poly.const(0), pfx, extra))
+                            continue
+                        alts.append((_canon(dlt, eqs), pfx, extra))
                         if need is None:
                             need = _canon(dlt, eqs)
                     if ok:
                         rep.proved("R05.S3", sh.file, sh.name, cons, f"provided {prov} >= required", line=sh.line)
                     else:
-                        pfi = {}
-                        for s_, b in pf.items():
-                            v = cmap.get(s_)
-                            pfi[s_] = (None if v is None else _canon(v, eqs), b)
-                        res.append({"kind": "extent", "cons": cons, "need": need, "facts": pfi,
+                        def pfi_of(pfx):
+                            out = {}
+                            for s_, b in pfx.items():
+                                v = cmap.get(s_)
+                                out[s_] = (None if v is None else _canon(v, eqs), b)
+                            return out
+                        res.append({"kind": "extent", "cons": cons, "need": need,
+                                    "alts": [(n_, pfi_of(pfx), ex) for n_, pfx, ex in alts],
+                                    "facts": pfi_of(pf),
                                     "text": f"{fn['file']}:{line} `{txt}` needs extent({arr}) >= {polys[0]}"
                                             f" i.e. {need} >= 0" + (f" when {_fmt_pf(pf)}" if pf else "")})
             residuals[(cm, sh.name)] = (sh, res)
@@ -376,37 +392,47 @@ def run(rep):
                 rep.violation("R05.S3" if r["kind"] == "extent" else "R05.S4", where, fq, cons,
                               f"requirement cannot be expressed at the shim: {r['text']}", line=s.call.lineno)
                 continue
-            # vacuity: a path fact contradicted by a constant argument
-            vac = False
-            env = s.env.copy()
-            for ks, (vp, (lb, ub)) in r["facts"].items():
-                if vp is None:
-                    continue
-                pv = _subst(vp, sub)
-                if pv is None:
-                    continue
-                pv = env.canon(pv)
-                if pv.is_const():
-                    c = pv.cval()
-                    if (lb is not None and c < lb) or (ub is not None and c > ub):
-                        vac = True
-                else:
-                    b = _bare(pv)
-                    if b and lb is not None:
-                        env.lb[b] = max(env.lb.get(b, 0), int(lb))
-                    elif lb is not None:
-                        env.vars["@facts"] = list(env.vars.get("@facts", [])) + [pv - lb]
             rule = "R05.S3" if r["kind"] == "extent" else "R05.S4"
-            if vac:
-                rep.proved(rule, where, fq, cons, "vacuous at this call site (path condition contradicted by a constant argument)", line=s.call.lineno)
-                continue
-            pn_ = _subst(need, sub)
-            if pn_ is not None and pyshape.prove_nonneg(pn_, env):
-                rep.proved(rule, where, fq, cons, f"established by the caller: {pn_} >= 0", line=s.call.lineno)
-            else:
+            alts = r.get("alts") or [(need, r["facts"], [])]
+            done, why = False, ""
+            for need_a, facts_a, extra_a in alts:
+                # vacuity: a path fact contradicted by a constant argument
+                vac = False
+                env = s.env.copy()
+                for ks, (vp, (lb, ub)) in facts_a.items():
+                    if vp is None:
+                        continue
+                    pv = _subst(vp, sub)
+                    if pv is None:
+                        continue
+                    pv = env.canon(pv)
+                    if pv.is_const():
+                        c = pv.cval()
+                        if (lb is not None and c < lb) or (ub is not None and c > ub):
+                            vac = True
+                    else:
+                        b = _bare(pv)
+                        if b and lb is not None:
+                            env.lb[b] = max(env.lb.get(b, 0), int(lb))
+                        elif lb is not None:
+                            env.vars["@facts"] = list(env.vars.get("@facts", [])) + [pv - lb]
+                if vac:
+                    rep.proved(rule, where, fq, cons, "vacuous at this call site (path condition contradicted by a constant argument)", line=s.call.lineno)
+                    done = True
+                    break
+                polys_ = [need_a] + list(extra_a)
+                ps = [_subst(x, sub) for x in polys_]
+                if all(x is not None and pyshape.prove_nonneg(x, env) for x in ps):
+                    rep.proved(rule, where, fq, cons, "established by the caller: " + ", ".join(f"{env.canon(x)} >= 0" for x in ps), line=s.call.lineno)
+                    done = True
+                    break
+                if not why:
+                    unk = sorted(set().union(*[x.symbols() for x in polys_]) & missing)
+                    why = ("unknown: " + ", ".join(unk)) if any(x is None for x in ps) else \
+                        "; ".join(f"{env.canon(x)} >= 0" for x in ps) + " not provable"
+            if not done:
                 rep.violation(rule, where, fq, cons,
-                              f"{r['text']}; not established by the shim's asserts nor by the caller "
-                              f"({'unknown: ' + ', '.join(sorted(missing & need.symbols())) if pn_ is None else str(env.canon(pn_)) + ' >= 0 not provable'})",
+                              f"{r['text']}; not established by the shim's asserts nor by the caller ({why})",
                               line=s.call.lineno)
     # shims nobody calls from Python: residuals must be empty (they are directly callable)
     for (cm, name), (sh, res) in residuals.items():
